@@ -116,6 +116,8 @@ func runC03(c *Ctx) {
 	ruleChallenge(c, "C03.5")
 	ruleNonceValidators(c, "C03.6")
 	ruleMACCoversTimestamp(c, "C03.6d")
+	// a request by another user must leave the owner's pending connection untouched
+	ruleSingleUseOwner(c, "C03.7")
 }
 
 // authFact: the call of authenticateRequest whose #1 result is known true at `at`.
@@ -135,7 +137,7 @@ func ruleAuthGate(c *Ctx, rule string, handlers map[string]*ssa.Function) {
 		c.Anchor(rule, fname(h))
 		mv := stunConst(w, m)
 		n := 0
-		for _, f := range withAnon(h) {
+		for _, f := range w.helpersOf(h) {
 			w.eachInstr(f, func(in ssa.Instruction) {
 				eff := w.effectAt(in)
 				if eff == "" {
@@ -360,7 +362,7 @@ func ruleOwnerCheck(c *Ctx, rule string, handlers map[string]*ssa.Function) {
 			continue
 		}
 		c.Anchor(rule, fname(h))
-		for _, f := range withAnon(h) {
+		for _, f := range w.helpersOf(h) {
 			w.eachInstr(f, func(in ssa.Instruction) {
 				eff := w.effectAt(in)
 				if eff == "" {
@@ -502,7 +504,7 @@ func ruleChallenge(c *Ctx, rule string) {
 		rs   func(ssa.Value) ssa.Value
 	}
 	var calls []rcall
-	for _, f := range withAnon(fn) {
+	for _, f := range w.helpersOf(fn) {
 		w.eachCallThrough(f, 2, func(call *ssa.Call, rs func(ssa.Value) ssa.Value) {
 			calls = append(calls, rcall{call, rs})
 		})
